@@ -207,7 +207,7 @@ impl World {
             }
             // default recall (active), and every explicit state
             out.insert(format!("kql:{c}:default"), self.ask(&format!("FIND(?e) WHERE {{ ?e {kw} {{}} }}")).await);
-            for st in ["active", "archived", "tombstoned", "quarantined"] {
+            for st in ["active", "archived", "tombstoned", "quarantined", "purged"] {
                 out.insert(format!("kql:{c}:{st}"), self.ask(&format!("FIND(?e) WHERE {{ ?e {kw} {{state: \"{st}\"}} }}")).await);
             }
             out.insert(format!("kql:{c}:count"), self.ask(&format!("FIND(COUNT(?e)) WHERE {{ ?e {kw} {{}} }}")).await);
@@ -250,7 +250,7 @@ impl World {
                 let (full, mut e) = match &el {
                     Element::Concept(r) => (serde_json::to_value(r).unwrap_or(Value::Null), RawElem { version: r.version, state: r.state.clone(), ty: type_code(&r.schema_ref), key: code_of(&r.key), val: code_of(&r.name), pay: 0, tup: "-".into(), seq: r.seq, schema_ref: r.schema_ref.clone(), key_text: r.key.clone(), tuple_key: String::new(), full: String::new() }),
                     Element::Proposition(r) => {
-                        let tup = if r.tuple_key.starts_with("pending:") { "-".to_string() } else {
+                        let tup = if r.tuple_key.starts_with("pending:") || r.tuple_key.starts_with("purged:") { "-".to_string() } else {
                             format!("{}>{}>{}", compact_id(r.subject["id"].as_str().unwrap_or("?")), pred_code(&r.predicate_ref), compact_id(r.object["id"].as_str().unwrap_or("?")))
                         };
                         (serde_json::to_value(r).unwrap_or(Value::Null), RawElem { version: r.version, state: r.state.clone(), ty: pred_code(&r.predicate_ref), key: 0, val: 0, pay: 0, tup, seq: r.seq, schema_ref: String::new(), key_text: String::new(), tuple_key: r.tuple_key.clone(), full: String::new() })
@@ -292,6 +292,13 @@ impl World {
             if e.state == "pending" {
                 k.pending.push(id.clone());
                 continue;
+            }
+            // "some other row refers to it": its id occurs, quoted, in another row (references are
+            // stored as id strings; a row never spells its own id)
+            let quoted = format!("\"{}\"", real_id(id));
+            let referenced = raw.elems.iter().any(|(j, o)| j != id && o.full.contains(&quoted));
+            if e.state != "purged" {
+                k.all.push((id.clone(), e.version, referenced));
             }
             match id.chars().next() {
                 Some('C') => k.concepts.push((id.clone(), e.ty, e.version, e.state.clone(), e.key)),
